@@ -77,7 +77,11 @@ T_Slot == /\ Is("Slot") /\ Consume
                 \/ Ev.slot = "deploy" /\ Ev.op = "miss" /\ slotD[s] = 1 /\ <<s, "deploy">> \in fillAfter      \* TryDMissLate
                       /\ Idle(s) /\ cont[s] = "tryD" /\ Go(s, <<[op |-> "SetW"]>>, "awaitD")
                       /\ UNCHANGED <<rl, stage, state, prevStage, slotD, slotE, slotR, stepCtx, closedFlag, conn, exec, execRes, sigNil, sigQ, resQ, wg, execStarted>>
-                \/ Ev.slot = "enabling" /\ Ev.op = "take" /\ slotE[s] = Ev.val /\ AwaitE(s) /\ slotE'[s] = "empty"
+                \/ Ev.slot = "enabling" /\ Ev.op = "take" /\ slotE[s] = Ev.val /\ (AwaitE(s) \/ FAwaitE(s)) /\ slotE'[s] = "empty"
+                \* loop step: the look at the items input when entering the execute stage, then the receive (or the context)
+                \/ Ev.slot = "execute" /\ Ev.op = "peek" /\ FTryX(s) /\ (Ev.val = "T" <=> slotR[s] = 1)
+                \/ Ev.slot = "execute" /\ Ev.op = "take" /\ slotR[s] = 1 /\ FAwaitX(s) /\ slotR'[s] = 0
+                \/ Ev.slot = "execute" /\ Ev.op = "ctxdone" /\ FAwaitX(s) /\ slotR'[s] = slotR[s]
                 \/ Ev.slot = "starting" /\ Ev.op = "take" /\ slotR[s] = 1 /\ (TryR(s) \/ AwaitR(s)) /\ slotR'[s] = 0
                 \/ Ev.slot = "starting" /\ Ev.op = "miss" /\ slotR[s] = 0 /\ TryR(s)
                 \/ Ev.slot = "starting" /\ Ev.op = "miss" /\ slotR[s] = 1 /\ <<s, "starting">> \in fillAfter    \* TryRMissLate
@@ -116,18 +120,24 @@ T_Res == /\ Is("Res") /\ Consume
               /\ s \in Steps /\ Free(s) /\ StepEv(s)
               /\ \/ resQ[s] # <<>> /\ Head(resQ[s]) = Ev.out /\ (AwaitRes(s) \/ AwaitResCancel(s)) /\ resQ'[s] = Tail(resQ[s])
                  \/ ResEarly(s)
+\* the loop has all its item results
+T_Collect == /\ Is("Collect") /\ Consume
+             /\ LET s == Ev.s IN /\ s \in Steps /\ Free(s) /\ StepEv(s) /\ FRun(s)
+                                 /\ (Ev.ok <=> Head(pend'[s]).stage = "outputs")
 T_Exit == /\ Is("Exit") /\ Consume /\ LET s == Ev.s IN s \in Steps /\ Free(s) /\ StepEv(s) /\ Exit(s)
 T_Sig == /\ Is("Sig") /\ Consume /\ UNCHANGED vars /\ OtherEv
-\* the context of a step is cancelled by a ForceClose (of the terminator spawned during the grace period, or of the
-\* deferred one); a stop condition (cancelStep) is not part of these families
-T_Ctx == /\ Is("Ctx") /\ Consume /\ OtherEv
-         /\ IF Ev.why = "forceClose"
-              THEN \/ mainPc = "grace" /\ GraceForceClose(Ev.s)
-                   \/ mainPc = "terminate" /\ termCur = Ev.s /\ TermCancel(Ev.s)
+\* closing a step: the closed flag (Close event, unless it was set before), then the cancellation of its context; a
+\* stop condition (cancelStep) is part of the handler that delivered it
+T_Close == /\ Is("Close") /\ Consume /\ OtherEv
+           /\ IF Ev.ok THEN UNCHANGED vars          \* the flag was already set
+              ELSE \/ mainPc = "grace" /\ GraceMark(Ev.s)
+                   \/ mainPc = "terminate" /\ termCur = Ev.s /\ TermMark(Ev.s)
                    \/ mainPc = "terminate" /\ termCur # Ev.s /\ ~closedFlag[Ev.s]      \* the spawned terminator, still going round
-                        /\ closedFlag' = [closedFlag EXCEPT ![Ev.s] = TRUE] /\ stepCtx' = [stepCtx EXCEPT ![Ev.s] = TRUE]
-                        /\ UNCHANGED rl
-                        /\ UNCHANGED <<stage, state, prevStage, pend, cont, slotD, slotE, slotR, conn, exec, execRes, sigNil, sigQ, resQ, wg, execStarted>>
+                        /\ closedFlag' = [closedFlag EXCEPT ![Ev.s] = TRUE] /\ UNCHANGED rl
+                        /\ UNCHANGED <<stage, state, prevStage, pend, cont, slotD, slotE, slotR, stepCtx, conn, exec, execRes, sigNil, sigQ, resQ, wg, execStarted>>
+T_Ctx == /\ Is("Ctx") /\ Consume /\ OtherEv
+         /\ IF Ev.why \in {"forceClose", "close"}
+              THEN (CloseCancel(Ev.s) \/ (stepCtx[Ev.s] /\ UNCHANGED vars))
               ELSE UNCHANGED vars
 
 \* ---- detector ----------------------------------------------------------------------------------------------------
@@ -157,12 +167,13 @@ Silent == /\ l' = l
           /\ \/ \E s \in Steps : /\ Free(s) /\ StepEv(s)
                                  /\ \/ (AwaitE(s) /\ slotE'[s] = slotE[s]) \/ (AwaitR(s) /\ slotR'[s] = slotR[s])
                                     \/ (PostDeploy(s) /\ conn'[s] = "closed") \/ (ReadSchema(s) /\ exec'[s] = exec[s])
+                                    \/ (FAwaitE(s) /\ slotE'[s] = slotE[s])
                                     \/ (AwaitRes(s) /\ resQ'[s] = resQ[s]) \/ CancelSend(s) \/ (AwaitResCancel(s) /\ resQ'[s] = resQ[s])
              \/ Unblock /\ OtherEv
              \/ SilentCancel /\ CallerCancel /\ OtherEv
 
 TNext == \/ T_Set \/ T_Read \/ T_HB_K \/ T_HB_S \/ T_HB_F \/ T_Prov \/ T_Err \/ T_Out \/ T_HE \/ T_Det \/ T_Slot \/ T_Deploy \/ T_Conn
-         \/ T_Exec \/ T_Res \/ T_Exit \/ T_Sig \/ T_Ctx \/ T_DetWake \/ T_DetCtx \/ T_Cancel \/ T_Select \/ T_TermStep \/ T_TermRet \/ T_Return
+         \/ T_Exec \/ T_Res \/ T_Collect \/ T_Exit \/ T_Sig \/ T_Ctx \/ T_Close \/ T_DetWake \/ T_DetCtx \/ T_Cancel \/ T_Select \/ T_TermStep \/ T_TermRet \/ T_Return
          \/ Silent
 TSpec == TInit /\ [][TNext]_tvars
 \* high-water mark of consumed events
